@@ -284,7 +284,7 @@ def run(ctx):
         pl = os.path.join(tmp, name + ".plan")
         with open(pl, "w") as fh:
             fh.write("\n".join(plan) + "\n")
-        shard = 6000 if big else 12000
+        shard = 1500 if big else 2500
         for lo in range(0, len(plan), shard):
             # the body-less model trips UBSan's nonnull check (mju_copy(NULL, NULL, 0)) already unmodified: table only
             jobs.append((exe, name, mjb, pl, table, lo, min(len(plan), lo + shard), 0 if name == "empty" else 1))
